@@ -380,6 +380,16 @@ impl Property for StoreProp {
                     ops.push(Op::S(gen_put(rng, 2, 3)));
                 }
                 if rng.chance(1, 3) {
+                    // several entries of one author through one replica handle (as a reconciliation message
+                    // delivers them), in rising order of time
+                    let a = rng.below(3);
+                    let n = rng.below(2);
+                    let mut ts: Vec<u64> = (0..rng.range(2, 4)).map(|_| *rng.pick(&crate::c02::TIMES)).collect();
+                    ts.sort();
+                    let entries = ts.into_iter().enumerate().map(|(i, t)| (a, vec![0x62, i as u8, rng.below(3) as u8], Some(rng.below(3)), t)).collect();
+                    ops.push(Op::S(SOp::PutBatch { n, entries }));
+                }
+                if rng.chance(1, 3) {
                     // an author whose entries all sit at the smallest timestamps there are
                     let a0 = rng.below(3);
                     for o in ops.iter_mut() {
